@@ -336,6 +336,7 @@ fn main() {
     let mut parsers: Vec<AisParser> = (0..4).map(|_| AisParser::new()).collect();
     let mut o = String::with_capacity(1 << 16);
     let mut shadow = false;
+    let mut fresh = true;
     for line in stdin.lock().lines() {
         let line = line.unwrap();
         let f: Vec<&str> = line.split(' ').collect();
@@ -343,11 +344,19 @@ fn main() {
         match f[0] {
             // `H c`: the shadow parsers 2, 3 mirror every call of this history (needed for the
             // second conversion of `C` steps)
-            "H" => { parsers = (0..4).map(|_| AisParser::new()).collect(); shadow = f.len() > 1; o.push('H'); }
+            // a parser can be obtained through `new()` and through `Default::default()`; both are public and must
+            // give the same parser.  Which one a history uses is decided by its first line (byte sum + length,
+            // odd = `default()`), so that a history replays the same way wherever it stands
+            "H" => { fresh = true; shadow = f.len() > 1; o.push('H'); }
             "L" | "C" => {
                 let p: usize = f[1].parse().unwrap();
                 let decode = f[2] == "1";
                 let bytes = unhex(f[3]);
+                if fresh {
+                    fresh = false;
+                    let dflt = (bytes.iter().map(|b| *b as usize).sum::<usize>() + bytes.len()) % 2 == 1;
+                    parsers = (0..4).map(|_| if dflt { AisParser::default() } else { AisParser::new() }).collect();
+                }
                 let r = catch_unwind(AssertUnwindSafe(|| parsers[p].parse(&bytes, decode))).map_err(|_| ());
                 step_tokens(&r, &mut o);
                 if f[0] == "L" && shadow {
